@@ -4,6 +4,14 @@
 //! E-STATE: breadth-first search over event histories with state matching. Every transition is
 //! executed on a fresh real multiplexer (history replayed from scratch) and compared with a
 //! reference routing table keyed by the ids the multiplexer actually put on the wire.
+//!
+//! Two ways of driving the multiplexer are explored: the *classic* family polls it whenever the
+//! schedule says so (poll is an always-enabled event); the *wake-driven* family polls it ONLY
+//! when a wake-up has been recorded since its last poll (plus the initial poll and after each
+//! `send_message`, as `DnsExchangeBackground` does). There the scripted stream keeps the waker it
+//! was handed when it answered Pending and wakes it when the script makes the next inbound item
+//! available; the hand-fired timers do the same. A multiplexer that returns Pending while input
+//! is available, nobody is registered and it did not wake itself has lost a wake-up.
 
 use std::cell::RefCell;
 use std::collections::VecDeque;
@@ -11,6 +19,7 @@ use std::future::Future;
 use std::io;
 use std::net::SocketAddr;
 use std::pin::Pin;
+use std::sync::atomic::{AtomicUsize, Ordering};
 use std::sync::{Arc, Mutex};
 use std::task::{Context, Poll, Waker};
 use std::time::Duration;
@@ -29,8 +38,17 @@ use crate::wirekit::{self, labels, Q};
 // ------------------------------------------------------------------------------------------
 // hand-fired timers
 
+#[derive(Default)]
+struct TimerSlot {
+    fired: bool,
+    /// the waker of the task that polled the pending timer last
+    waker: Option<Waker>,
+}
+
 thread_local! {
-    static TIMERS: RefCell<Vec<bool>> = const { RefCell::new(Vec::new()) };
+    static TIMERS: RefCell<Vec<TimerSlot>> = const { RefCell::new(Vec::new()) };
+    /// further findings of the step that just failed (same step, other clause)
+    static ALSO: RefCell<Vec<Finding>> = const { RefCell::new(Vec::new()) };
 }
 
 fn timers_reset() {
@@ -40,23 +58,51 @@ fn timers_len() -> usize {
     TIMERS.with(|t| t.borrow().len())
 }
 fn timer_fire(i: usize) {
-    TIMERS.with(|t| {
-        if let Some(f) = t.borrow_mut().get_mut(i) {
-            *f = true;
-        }
+    let w = TIMERS.with(|t| {
+        t.borrow_mut().get_mut(i).and_then(|s| {
+            s.fired = true;
+            s.waker.take()
+        })
     });
+    if let Some(w) = w {
+        w.wake();
+    }
+}
+fn timer_registered(i: usize) -> bool {
+    TIMERS.with(|t| t.borrow().get(i).map(|s| s.waker.is_some()).unwrap_or(false))
 }
 
 struct ManualTimer(usize);
 
 impl Future for ManualTimer {
     type Output = ();
-    fn poll(self: Pin<&mut Self>, _cx: &mut Context<'_>) -> Poll<()> {
-        if TIMERS.with(|t| t.borrow().get(self.0).copied().unwrap_or(false)) {
-            Poll::Ready(())
-        } else {
-            Poll::Pending
-        }
+    fn poll(self: Pin<&mut Self>, cx: &mut Context<'_>) -> Poll<()> {
+        TIMERS.with(|t| {
+            let mut t = t.borrow_mut();
+            match t.get_mut(self.0) {
+                Some(s) if s.fired => Poll::Ready(()),
+                Some(s) => {
+                    s.waker = Some(cx.waker().clone());
+                    Poll::Pending
+                }
+                None => Poll::Pending,
+            }
+        })
+    }
+}
+
+/// Waker that only counts: the harness polls the multiplexer itself and looks at the count.
+#[derive(Default)]
+struct WakeRec {
+    n: AtomicUsize,
+}
+
+impl std::task::Wake for WakeRec {
+    fn wake(self: Arc<Self>) {
+        self.n.fetch_add(1, Ordering::SeqCst);
+    }
+    fn wake_by_ref(self: &Arc<Self>) {
+        self.n.fetch_add(1, Ordering::SeqCst);
     }
 }
 
@@ -71,7 +117,7 @@ impl Time for ManualTime {
     fn delay_for<'async_trait>(_d: Duration) -> Pin<Box<dyn Future<Output = ()> + Send + 'async_trait>> {
         let idx = TIMERS.with(|t| {
             let mut t = t.borrow_mut();
-            t.push(false);
+            t.push(TimerSlot::default());
             t.len() - 1
         });
         Box::pin(ManualTimer(idx))
@@ -101,6 +147,11 @@ struct StreamShared {
     q: VecDeque<Inb>,
     ids: Vec<u16>,
     ended: bool,
+    /// the waker handed over with the last poll that was answered Pending; consumed by the
+    /// wake-up the next inbound item causes
+    registered: Option<Waker>,
+    /// items handed to the multiplexer so far
+    popped: usize,
 }
 
 struct SimStream {
@@ -114,13 +165,20 @@ fn unknown_question() -> Q {
 
 impl Stream for SimStream {
     type Item = Result<SerialMessage, NetError>;
-    fn poll_next(self: Pin<&mut Self>, _cx: &mut Context<'_>) -> Poll<Option<Self::Item>> {
+    fn poll_next(self: Pin<&mut Self>, cx: &mut Context<'_>) -> Poll<Option<Self::Item>> {
         let mut g = self.sh.lock().unwrap();
         if g.ended {
             return Poll::Ready(None);
         }
-        match g.q.pop_front() {
-            None => Poll::Pending,
+        let item = g.q.pop_front();
+        if item.is_some() {
+            g.popped += 1;
+        }
+        match item {
+            None => {
+                g.registered = Some(cx.waker().clone());
+                Poll::Pending
+            }
             Some(Inb::Bytes(b)) => Poll::Ready(Some(Ok(SerialMessage::new(b, self.addr)))),
             Some(Inb::Unknown { marker }) => {
                 let mut id = 0x4242u16;
@@ -210,6 +268,8 @@ pub struct Cfg {
     pub max_active: u8,
     /// bound on not-yet-read inbound messages
     pub qmax: u8,
+    /// wake-driven family: the multiplexer is polled only when a wake-up is pending
+    pub wd: bool,
 }
 
 #[derive(Clone, Debug)]
@@ -219,12 +279,12 @@ pub struct Node {
 }
 
 pub fn case_json(cfg: &Cfg, hist: &[Ev]) -> Value {
-    json!({"part": "mux", "k": cfg.k, "max_active": cfg.max_active, "qmax": cfg.qmax,
+    json!({"part": "mux", "k": cfg.k, "max_active": cfg.max_active, "qmax": cfg.qmax, "wake_driven": cfg.wd,
            "events": hist.iter().map(|e| e.name()).collect::<Vec<_>>()})
 }
 
 pub fn case_from_json(v: &Value) -> Option<(Cfg, Vec<Ev>)> {
-    let cfg = Cfg { k: v["k"].as_u64()? as u8, max_active: v["max_active"].as_u64()? as u8, qmax: v["qmax"].as_u64()? as u8 };
+    let cfg = Cfg { k: v["k"].as_u64()? as u8, max_active: v["max_active"].as_u64()? as u8, qmax: v["qmax"].as_u64()? as u8, wd: v["wake_driven"].as_bool().unwrap_or(false) };
     let mut h = vec![];
     for e in v["events"].as_array()? {
         h.push(Ev::from_name(e.as_str()?)?);
@@ -297,6 +357,12 @@ pub struct Sys {
     err_used: bool,
     end_used: bool,
     seq: u8,
+    /// records the wake-ups the multiplexer's task receives
+    wake: Arc<WakeRec>,
+    /// wake-driven family: a poll is due (initially, after a wake-up, after send_message)
+    due: bool,
+    /// what the last poll read last (scene of the wake-driven keys)
+    last_scene: &'static str,
 }
 
 fn addr() -> SocketAddr {
@@ -314,7 +380,22 @@ impl Sys {
         let (handle, outbound) = BufDnsStreamHandle::new(addr());
         let stream = SimStream { sh: sh.clone(), addr: addr() };
         let mux = DnsMultiplexer::new(stream, handle).with_max_active_requests(cfg.max_active as usize);
-        Sys { cfg, mux, sh, outbound, reqs: vec![], mq: VecDeque::new(), log: vec![], closed: false, err_used: false, end_used: false, seq: 0 }
+        Sys {
+            cfg,
+            mux,
+            sh,
+            outbound,
+            reqs: vec![],
+            mq: VecDeque::new(),
+            log: vec![],
+            closed: false,
+            err_used: false,
+            end_used: false,
+            seq: 0,
+            wake: Arc::new(WakeRec::default()),
+            due: true,
+            last_scene: "never-polled",
+        }
     }
 
     fn live(&self, i: usize) -> bool {
@@ -332,7 +413,9 @@ impl Sys {
             if can_send {
                 v.push(Ev::Send);
             }
-            v.push(Ev::Poll);
+            if !self.cfg.wd || self.due {
+                v.push(Ev::Poll);
+            }
             return v;
         }
         if can_send {
@@ -367,13 +450,26 @@ impl Sys {
                 v.push(Ev::Timer(i as u8));
             }
         }
-        v.push(Ev::Poll);
+        if !self.cfg.wd || self.due {
+            v.push(Ev::Poll);
+        }
         v
     }
 
     /// Canonical key: requests by index (ids never appear), flags, unread inbound kinds.
     pub fn key(&self) -> Vec<u8> {
         let mut k = vec![self.cfg.k, self.cfg.max_active, self.cfg.qmax];
+        if self.cfg.wd {
+            // who would be woken by what: part of the state in the wake-driven family
+            let reg = self.sh.lock().unwrap().registered.is_some();
+            let mut b = 0x80 | self.due as u8 | (reg as u8) << 1;
+            for (i, r) in self.reqs.iter().enumerate() {
+                if r.timer.map(timer_registered).unwrap_or(false) {
+                    b |= 1 << (2 + i.min(4));
+                }
+            }
+            k.push(b);
+        }
         k.push(self.closed as u8 | (self.err_used as u8) << 1 | (self.end_used as u8) << 2 | (self.mux.is_shutdown() as u8) << 3);
         for r in &self.reqs {
             let s = match r.state {
@@ -411,11 +507,88 @@ impl Sys {
     }
 
     fn push_inbound(&mut self, inb: Inb, m: MItem) {
-        self.sh.lock().unwrap().q.push_back(inb);
+        let w = {
+            let mut g = self.sh.lock().unwrap();
+            g.q.push_back(inb);
+            if g.ended {
+                None
+            } else {
+                g.registered.take()
+            }
+        };
         self.mq.push_back(m);
+        // the next inbound item wakes whoever was told "Pending" last
+        if let Some(w) = w {
+            w.wake();
+        }
     }
 
-    fn apply(&mut self, ev: Ev, mut l: Option<&mut Local>) -> Result<(), StepErr> {
+    /// Input the reference would act upon is available, but no poll is due and nobody will be
+    /// woken by it: a response for a pending request (or the close of the connection while a
+    /// request is pending) that wake-driven polling alone never delivers.
+    fn stuck_input(&self) -> Option<Finding> {
+        if !self.cfg.wd || self.due || self.closed {
+            return None;
+        }
+        {
+            let g = self.sh.lock().unwrap();
+            if g.ended || g.q.is_empty() || g.registered.is_some() {
+                return None;
+            }
+        }
+        let waiting = |i: usize| self.live(i) && !self.reqs[i].cancelled && !self.reqs[i].fired && self.reqs[i].rx.is_some() && !self.reqs[i].terminated;
+        for m in &self.mq {
+            match m {
+                MItem::Resp { id, .. } => {
+                    if let Some(i) = (0..self.reqs.len()).find(|i| waiting(*i) && self.reqs[*i].id == *id) {
+                        return Some(Finding {
+                            key: format!("stream-response-not-delivered:wake-driven:{}", self.last_scene),
+                            what: format!(
+                                "a response for pending request {i} is available on the connection, but the multiplexer returned Pending from its last poll ({}) without a registered read waker and without waking itself: polled only when woken, it never delivers it",
+                                self.last_scene
+                            ),
+                        });
+                    }
+                }
+                MItem::Error | MItem::End => {
+                    if let Some(i) = (0..self.reqs.len()).find(|i| waiting(*i)) {
+                        return Some(Finding {
+                            key: format!("stream-closed-connection-request-not-failed:wake-driven:{}", self.last_scene),
+                            what: format!(
+                                "the connection closed while request {i} is pending, but the multiplexer returned Pending from its last poll ({}) without a registered read waker: polled only when woken, it never fails the request",
+                                self.last_scene
+                            ),
+                        });
+                    }
+                    break;
+                }
+                _ => {}
+            }
+        }
+        None
+    }
+
+    fn apply(&mut self, ev: Ev, l: Option<&mut Local>) -> Result<(), StepErr> {
+        ALSO.with(|a| a.borrow_mut().clear());
+        let r = self.apply_inner(ev, l);
+        if self.wake.n.swap(0, Ordering::SeqCst) > 0 {
+            self.due = true;
+        }
+        if ev == Ev::Send {
+            // send_message is called from the task that drives the multiplexer, which polls it
+            // again afterwards (DnsExchangeBackground loops)
+            self.due = true;
+        }
+        r?;
+        if ev != Ev::Poll {
+            if let Some(f) = self.stuck_input() {
+                return Err(StepErr::Finding(f));
+            }
+        }
+        Ok(())
+    }
+
+    fn apply_inner(&mut self, ev: Ev, mut l: Option<&mut Local>) -> Result<(), StepErr> {
         let mut cx = Context::from_waker(Waker::noop());
         match ev {
             Ev::Send => {
@@ -561,10 +734,14 @@ impl Sys {
     }
 
     fn poll(&mut self, mut l: Option<&mut Local>) -> Result<(), StepErr> {
-        let mut cx = Context::from_waker(Waker::noop());
         let n = self.reqs.len();
+        let mux_waker = Waker::from(self.wake.clone());
+        let mut mux_cx = Context::from_waker(&mux_waker);
+        let popped_before = self.sh.lock().unwrap().popped;
+        self.wake.n.store(0, Ordering::SeqCst);
+        self.due = false;
         let mux = &mut self.mux;
-        let pr = match catch(|| mux.poll_next_unpin(&mut cx)) {
+        let pr = match catch(|| mux.poll_next_unpin(&mut mux_cx)) {
             Ok(p) => p,
             Err(p) => {
                 return Err(StepErr::Finding(Finding {
@@ -581,6 +758,18 @@ impl Sys {
                 Poll::Ready(Some(Err(_))) => "mux:poll:error",
             });
         }
+        let mut cx = Context::from_waker(Waker::noop());
+        let self_woken = self.wake.n.load(Ordering::SeqCst) > 0;
+        let consumed = self.sh.lock().unwrap().popped - popped_before;
+        if matches!(pr, Poll::Ready(Some(_))) {
+            // a driver loops while the stream says "ready"
+            self.due = true;
+        }
+        // classic family: the reference reads everything up to a close in one poll (the bound on
+        // unread messages is far below the implementation's batch size); wake-driven family: it
+        // follows what was actually read, the rest is the business of the lost-wake-up clauses
+        let mut budget = if self.cfg.wd { consumed } else { usize::MAX };
+        let mut last_kind: &'static str = "nothing-read";
 
         // ---- reference routing table
         let mut exp: Vec<Vec<[u8; 4]>> = vec![vec![]; n];
@@ -601,7 +790,9 @@ impl Sys {
                     }
                 }
             }
-            while let Some(item) = self.mq.pop_front() {
+            while budget > 0 {
+                let Some(item) = self.mq.pop_front() else { break };
+                budget -= 1;
                 match item {
                     MItem::Resp { id, marker, .. } => {
                         for i in 0..n {
@@ -612,11 +803,13 @@ impl Sys {
                         match (0..n).find(|i| self.live(*i) && self.reqs[*i].id == id) {
                             Some(i) => {
                                 exp[i].push(marker);
+                                last_kind = "after-response";
                                 if let Some(l) = l.as_deref_mut() {
                                     l.outcome("mux:ref-routes-response");
                                 }
                             }
                             None => {
+                                last_kind = "after-late-response";
                                 if let Some(l) = l.as_deref_mut() {
                                     l.outcome("mux:ref-drops-late-response");
                                 }
@@ -624,11 +817,13 @@ impl Sys {
                         }
                     }
                     MItem::Unknown { .. } => {
+                        last_kind = "after-unknown-id";
                         if let Some(l) = l.as_deref_mut() {
                             l.outcome("mux:ref-drops-unknown-id");
                         }
                     }
                     MItem::Garbage(_) => {
+                        last_kind = "after-undecodable";
                         if let Some(l) = l.as_deref_mut() {
                             l.outcome("mux:ref-drops-undecodable");
                         }
@@ -649,6 +844,14 @@ impl Sys {
                 }
             }
         }
+        if self.cfg.wd {
+            // keep the reference queue in step with the real one
+            let real = self.sh.lock().unwrap().q.len();
+            while self.mq.len() > real {
+                self.mq.pop_front();
+            }
+        }
+        self.last_scene = if consumed >= 100 { "after-100-messages-in-one-poll" } else { last_kind };
 
         // ---- observe every receiver the caller still holds
         for i in 0..n {
@@ -779,6 +982,37 @@ impl Sys {
                 }
             }
         }
+
+        // ---- wake-driven family: Pending with input available, nobody registered, no self-wake
+        if self_woken {
+            self.due = true;
+            if let Some(l) = l.as_deref_mut() {
+                l.outcome("mux:self-wake");
+            }
+        }
+        if self.cfg.wd && matches!(pr, Poll::Pending) && !self.due {
+            let (avail, reg) = {
+                let g = self.sh.lock().unwrap();
+                (!g.ended && !g.q.is_empty(), g.registered.is_some())
+            };
+            if avail && !reg {
+                let lost = Finding {
+                    key: format!("stream-lost-wakeup:{}", self.last_scene),
+                    what: format!(
+                        "poll_next returned Pending ({}; {consumed} message(s) read) while {} inbound item(s) are available, the stream was not polled to Pending (no read waker registered) and the multiplexer did not wake itself",
+                        self.last_scene,
+                        self.sh.lock().unwrap().q.len()
+                    ),
+                };
+                if let Some(stuck) = self.stuck_input() {
+                    ALSO.with(|a| a.borrow_mut().push(stuck));
+                }
+                return Err(StepErr::Finding(lost));
+            }
+            if let Some(l) = l.as_deref_mut() {
+                l.outcome(if reg { "mux:wd-pending-with-read-waker" } else { "obs:mux-wd-pending-without-read-waker-no-input" });
+            }
+        }
         Ok(())
     }
 }
@@ -809,27 +1043,21 @@ pub fn replay(cfg: Cfg, hist: &[Ev], mut l: Option<&mut Local>) -> Result<Sys, (
 pub const NOT_ENABLED: &str = "history-not-executable";
 
 pub fn configs(thorough: bool) -> (Vec<Cfg>, usize) {
+    let c = |k, max_active, qmax| Cfg { k, max_active, qmax, wd: false };
     if thorough {
-        (
-            vec![
-                Cfg { k: 3, max_active: 32, qmax: 4 },
-                Cfg { k: 3, max_active: 2, qmax: 3 },
-                Cfg { k: 3, max_active: 1, qmax: 3 },
-                Cfg { k: 2, max_active: 32, qmax: 5 },
-                Cfg { k: 2, max_active: 1, qmax: 4 },
-            ],
-            12,
-        )
+        (vec![c(3, 32, 4), c(3, 2, 3), c(3, 1, 3), c(2, 32, 5), c(2, 1, 4)], 12)
     } else {
-        (
-            vec![
-                Cfg { k: 2, max_active: 32, qmax: 3 },
-                Cfg { k: 2, max_active: 1, qmax: 3 },
-                Cfg { k: 3, max_active: 32, qmax: 3 },
-                Cfg { k: 3, max_active: 2, qmax: 2 },
-            ],
-            9,
-        )
+        (vec![c(2, 32, 3), c(2, 1, 3), c(3, 32, 3), c(3, 2, 2)], 9)
+    }
+}
+
+/// The wake-driven family: same events, the multiplexer is polled only when a wake-up is due.
+pub fn wd_configs(thorough: bool) -> (Vec<Cfg>, usize) {
+    let c = |k, max_active, qmax| Cfg { k, max_active, qmax, wd: true };
+    if thorough {
+        (vec![c(3, 32, 3), c(3, 2, 3), c(2, 32, 4), c(2, 1, 3)], 12)
+    } else {
+        (vec![c(2, 32, 3), c(2, 1, 3)], 10)
     }
 }
 
@@ -842,16 +1070,17 @@ pub fn report(ctx: &Ctx, l: &mut Local, cfg: Cfg, hist: &[Ev], step: usize, f: F
             return;
         }
     }
-    l.violation(&f.key, &f.what, || {
-        let mut j = case_json(&cfg, &hist[..=step]);
-        j["failed_at_step"] = json!(step);
-        j
-    });
+    let also: Vec<Finding> = ALSO.with(|a| a.borrow_mut().drain(..).collect());
+    for g in std::iter::once(f).chain(also) {
+        l.violation(&g.key, &g.what, || {
+            let mut j = case_json(&cfg, &hist[..=step]);
+            j["failed_at_step"] = json!(step);
+            j
+        });
+    }
 }
 
-pub fn run(ctx: &Ctx) {
-    let thorough = !ctx.quick();
-    let (cfgs, depth) = configs(thorough);
+fn explore(ctx: &Ctx, cfgs: &[Cfg], depth: usize) -> vcore::BfsStats {
     let roots: Vec<(Node, Vec<u8>)> = cfgs
         .iter()
         .map(|c| {
@@ -859,7 +1088,7 @@ pub fn run(ctx: &Ctx) {
             (Node { cfg: *c, hist: vec![] }, s.key())
         })
         .collect();
-    let stats = vcore::bfs(ctx, roots, depth, |node, l| {
+    vcore::bfs(ctx, roots, depth, |node, l| {
         let parent = match replay(node.cfg, &node.hist, None) {
             Ok(s) => s,
             Err(_) => {
@@ -891,6 +1120,9 @@ pub fn run(ctx: &Ctx) {
                     if ev == Ev::Poll && key == pkey {
                         l.outcome("mux:idempotent-poll");
                     }
+                    if node.cfg.wd && ev == Ev::Poll {
+                        l.outcome("mux:wake-driven-poll");
+                    }
                     out.push((Node { cfg: node.cfg, hist: h }, key));
                 }
                 Err((step, f)) => {
@@ -904,12 +1136,150 @@ pub fn run(ctx: &Ctx) {
             }
         }
         out
+    })
+}
+
+fn cfgs_json(cfgs: &[Cfg]) -> Value {
+    json!(cfgs.iter().map(|c| json!({"k": c.k, "max_active": c.max_active, "qmax": c.qmax, "wake_driven": c.wd})).collect::<Vec<_>>())
+}
+
+// ------------------------------------------------------------------------------------------
+// burst family: the batch boundary of the receive loop, wake-driven
+
+/// Drive a script with a wake-driven executor: after every scripted event marked `settle`, the
+/// multiplexer is polled as long as (and only if) a poll is due. Returns the full history
+/// (scripted events + the polls that happened) and the first finding.
+fn drive(cfg: Cfg, script: &[(Ev, bool)], mut l: Option<&mut Local>) -> (Vec<Ev>, Option<(usize, Finding)>) {
+    'attempt: for _ in 0..16 {
+        let mut sys = Sys::new(cfg);
+        let mut hist: Vec<Ev> = vec![];
+        let mut polls_in_a_row = 0;
+        let mut todo: VecDeque<(Ev, bool)> = script.iter().copied().collect();
+        let mut settle = true; // the initial poll
+        loop {
+            let ev = if settle && sys.due && polls_in_a_row < 32 {
+                polls_in_a_row += 1;
+                Ev::Poll
+            } else if let Some((ev, s)) = todo.pop_front() {
+                settle = s;
+                polls_in_a_row = 0;
+                ev
+            } else {
+                break;
+            };
+            if !sys.enabled().contains(&ev) {
+                return (hist, Some((0, Finding { key: NOT_ENABLED.into(), what: format!("event {} not enabled", ev.name()) })));
+            }
+            hist.push(ev);
+            match sys.apply(ev, l.as_deref_mut()) {
+                Ok(()) => {}
+                Err(StepErr::Restart) => continue 'attempt,
+                Err(StepErr::Finding(f)) => return (hist.clone(), Some((hist.len() - 1, f))),
+            }
+        }
+        if let Some(l) = l.as_deref_mut() {
+            l.outcome(if polls_in_a_row >= 32 { "obs:mux-burst-still-self-waking-after-32-polls" } else { "mux:burst-settled" });
+            // everything the script made available for request 0 while it was pending arrived?
+            l.outcome(&format!("mux:burst-responses-received={}", sys.reqs.first().map(|r| r.got).unwrap_or(0).min(3)));
+        }
+        return (hist, None);
+    }
+    (vec![], None)
+}
+
+pub fn burst_scripts(thorough: bool) -> Vec<(Cfg, Vec<(Ev, bool)>)> {
+    let cfg = Cfg { k: 1, max_active: 32, qmax: 255, wd: true };
+    let sizes: Vec<usize> = if thorough {
+        vec![1, 50, 97, 98, 99, 100, 101, 102, 149, 150, 198, 199, 200, 201, 248]
+    } else {
+        vec![98, 99, 100, 101, 150, 199, 200, 248]
+    };
+    let junk_sets: Vec<Vec<Ev>> = if thorough {
+        vec![
+            vec![Ev::Unknown],
+            vec![Ev::GarbageShort],
+            vec![Ev::GarbageHdr],
+            vec![Ev::Unknown, Ev::GarbageHdr],
+            vec![Ev::GarbageShort, Ev::Unknown, Ev::GarbageHdr],
+        ]
+    } else {
+        vec![vec![Ev::Unknown], vec![Ev::GarbageShort], vec![Ev::GarbageHdr]]
+    };
+    let tails = [Ev::Deliver(0), Ev::StreamError, Ev::StreamEnd];
+    let mut out = vec![];
+    for n in &sizes {
+        for js in &junk_sets {
+            for tail in tails {
+                for late in [false, true] {
+                    if late && tail != Ev::Deliver(0) {
+                        continue;
+                    }
+                    // send, let the multiplexer settle (it registers with the stream), then the
+                    // whole burst becomes available before the woken task gets to run
+                    let mut sc: Vec<(Ev, bool)> = vec![(Ev::Send, true)];
+                    for i in 0..*n {
+                        sc.push((js[i % js.len()], false));
+                    }
+                    sc.push((tail, true));
+                    if late {
+                        // one more response after everything has gone quiet
+                        sc.push((Ev::Deliver(0), true));
+                    }
+                    out.push((cfg, sc));
+                }
+            }
+        }
+    }
+    out
+}
+
+fn run_burst(ctx: &Ctx) {
+    let scripts = burst_scripts(!ctx.quick());
+    ctx.set("mux_burst_cases", json!(scripts.len()));
+    let executed = std::sync::atomic::AtomicU64::new(0);
+    ctx.par_run(scripts.len() as u64, 1, |i, l| {
+        let (cfg, sc) = &scripts[i as usize];
+        l.eval();
+        let (hist, res) = drive(*cfg, sc, Some(l));
+        executed.fetch_add(hist.len() as u64, Ordering::Relaxed);
+        match res {
+            None => {}
+            Some((_, f)) if f.key == NOT_ENABLED => ctx.machinery_failure(&format!("burst script not executable: {}", f.what)),
+            Some((step, f)) => report(ctx, l, *cfg, &hist, step, f),
+        }
+        if i == 0 {
+            let mut j = case_json(cfg, &hist);
+            j["note"] = json!("burst family: the listed polls are the only ones that were due");
+            l.sample(j);
+        }
     });
-    ctx.traces_validated.fetch_add(stats.transitions, std::sync::atomic::Ordering::SeqCst);
+    let n = executed.load(Ordering::SeqCst);
+    ctx.transitions.fetch_add(n, Ordering::SeqCst);
+    ctx.traces_validated.fetch_add(scripts.len() as u64, Ordering::SeqCst);
+    ctx.set("mux_burst_steps", json!(n));
+}
+
+pub fn run(ctx: &Ctx) {
+    let thorough = !ctx.quick();
+    let (cfgs, depth) = configs(thorough);
+    let stats = explore(ctx, &cfgs, depth);
+    ctx.traces_validated.fetch_add(stats.transitions, Ordering::SeqCst);
     ctx.set("mux_states", json!(stats.states));
     ctx.set("mux_transitions", json!(stats.transitions));
     ctx.set("mux_depth", json!(stats.depth_completed));
     ctx.set("mux_fixpoint", json!(stats.fixpoint));
     ctx.set("mux_states_per_depth", json!(stats.per_depth));
-    ctx.set("mux_configs", json!(cfgs.iter().map(|c| json!({"k": c.k, "max_active": c.max_active, "qmax": c.qmax})).collect::<Vec<_>>()));
+    ctx.set("mux_configs", cfgs_json(&cfgs));
+
+    let (wcfgs, wdepth) = wd_configs(thorough);
+    let w = explore(ctx, &wcfgs, wdepth);
+    ctx.traces_validated.fetch_add(w.transitions, Ordering::SeqCst);
+    ctx.set("mux_wd_states", json!(w.states));
+    ctx.set("mux_wd_transitions", json!(w.transitions));
+    ctx.set("mux_wd_depth", json!(w.depth_completed));
+    ctx.set("mux_wd_fixpoint", json!(w.fixpoint));
+    ctx.set("mux_wd_states_per_depth", json!(w.per_depth));
+    ctx.set("mux_wd_configs", cfgs_json(&wcfgs));
+
+    run_burst(ctx);
 }
